@@ -5,6 +5,7 @@ import (
 	"math"
 	"runtime"
 	"runtime/debug"
+	"slices"
 	"sync"
 	"testing"
 
@@ -16,6 +17,7 @@ func init() {
 	vk.Register("C11", "exh", runC11)
 	vk.Register("C11", "rand", runC11)
 	vk.Register("C11", "alias", runC11)
+	vk.Register("C11", "big", runC11)
 	vk.Register("C12", "lisexh", runC12Seq)
 	vk.Register("C12", "lisrand", runC12Seq)
 	vk.Register("C12", "lisbig", runC12Seq)
@@ -473,6 +475,27 @@ func TestC11Rand(t *testing.T) {
 	vk.Rapid(h, t, genEditCase, runC11)
 }
 
+// genBigEdit: inputs of 1000..5000 elements that differ in a few places (the
+// realistic shape of a diff), so that len(lhs)*len(rhs) crosses 2^20 .. 2^24.
+func genBigEdit(t *rapid.T) EditCase {
+	n := rapid.SampledFrom([]int{1100, 2050, 4097, 4100, 4200, 5000}).Draw(t, "n")
+	c := EditCase{BigN: n, Swap: rapid.Bool().Draw(t, "swap")}
+	if rapid.IntRange(0, 2).Draw(t, "repeats") == 0 {
+		c.BigMod = rapid.SampledFrom([]int{2, 7, 100, 1000}).Draw(t, "mod")
+	}
+	c.BigDel = rapid.SliceOfNDistinct(rapid.IntRange(0, n-1), 0, 6, rapid.ID[int]).Draw(t, "del")
+	c.BigIns = rapid.SliceOfN(rapid.IntRange(0, n), 0, 6).Draw(t, "ins")
+	if len(c.BigDel)+len(c.BigIns) == 0 || rapid.IntRange(0, 3).Draw(t, "early") == 0 {
+		c.BigDel = append(c.BigDel, rapid.IntRange(0, 20).Draw(t, "earlyDel")) // a difference near the start
+	}
+	return c
+}
+
+func TestC11Big(t *testing.T) {
+	h := vk.Start(t, "C11", "big")
+	vk.Rapid(h, t, genBigEdit, runC11)
+}
+
 func TestC11Exhaustive(t *testing.T) {
 	h := vk.Start(t, "C11", "exh")
 	e := newExh(h, t, c11Names, checkEdit)
@@ -542,7 +565,18 @@ func genLCSCase(t *rapid.T) LCSCase {
 	k := rapid.IntRange(1, 5).Draw(t, "alphabet")
 	maxLen := rapid.SampledFrom([]int{12, 60, 200, 200}).Draw(t, "maxLen")
 	a, b := genPair(t, k, maxLen)
-	c := LCSCase{As: a, Bs: b, Lay: rapid.SampledFrom([]int{0, 0, 1, 2, 3}).Draw(t, "layout")}
+	c := LCSCase{As: a, Bs: b, Lay: rapid.SampledFrom([]int{0, 0, 1, 2, 3, 4, 5}).Draw(t, "layout")}
+	if c.Lay >= 4 {
+		// one argument is a window of the other's memory; windows starting at
+		// the first element and windows ending at the last one are favoured
+		n := len(a)
+		if c.Lay == 5 {
+			n = len(b)
+		}
+		lo := rapid.SampledFrom([]int{0, 0, 0, 1, 2, n / 2}).Draw(t, "winLo")
+		hi := n - rapid.SampledFrom([]int{0, 0, 1, 1, 2, n / 2}).Draw(t, "winCut")
+		c.Win = [2]int{lo, hi}
+	}
 	if rapid.IntRange(0, 2).Draw(t, "fold") == 0 {
 		// element = 2*letter + case bit
 		c.Fold = true
@@ -572,7 +606,22 @@ func TestC12LCSExhaustive(t *testing.T) {
 			n, dec := sp.level(s)
 			if !e.level(2*n, func(i int) (LCSCase, bool) {
 				a, b, ok := dec(i / 2)
-				return LCSCase{As: a, Bs: b, Fold: i%2 == 1, Lay: (i / 2) % 4}, ok
+				c := LCSCase{As: a, Bs: b, Fold: i%2 == 1, Lay: (i / 2) % 4}
+				if c.Lay == 0 && ok {
+					// where one sequence is a prefix or suffix of the other, pass it
+					// as that very window of the other's memory
+					switch {
+					case len(b) <= len(a) && slices.Equal(a[:len(b)], b):
+						c.Lay, c.Win = 4, [2]int{0, len(b)}
+					case len(a) <= len(b) && slices.Equal(b[:len(a)], a):
+						c.Lay, c.Win = 5, [2]int{0, len(a)}
+					case len(b) <= len(a) && slices.Equal(a[len(a)-len(b):], b):
+						c.Lay, c.Win = 4, [2]int{len(a) - len(b), len(a)}
+					case len(a) <= len(b) && slices.Equal(b[len(b)-len(a):], a):
+						c.Lay, c.Win = 5, [2]int{len(b) - len(a), len(b)}
+					}
+				}
+				return c, ok
 			}) {
 				break
 			}
@@ -590,7 +639,7 @@ var cmpKinds = []string{"nat", "rev", "half"}
 var cmpKindsRand = []string{"nat", "rev", "half", "extreme", "diff"}
 
 func genSeqCase(t *rapid.T) SeqCase {
-	c := SeqCase{Cmp: rapid.SampledFrom(cmpKindsRand).Draw(t, "cmp")}
+	c := SeqCase{Cmp: rapid.SampledFrom(cmpKindsRand).Draw(t, "cmp"), Wide: rapid.IntRange(0, 3).Draw(t, "wide") == 0}
 	k := rapid.SampledFrom([]int{3, 2, 4, 6, 1, 5}).Draw(t, "values")
 	if c.Cmp == "half" {
 		k *= 2
